@@ -8,6 +8,7 @@ import (
 	"os/exec"
 	"strconv"
 	"strings"
+	"sync"
 	"time"
 )
 
@@ -61,6 +62,7 @@ type Solver struct {
 	Log      io.Writer // optional: every line sent
 	Restarts int
 	ndefs    int
+	mu       sync.Mutex
 }
 
 func NewSolver(backend string) (*Solver, error) {
@@ -76,6 +78,8 @@ func NewSolver(backend string) (*Solver, error) {
 }
 
 func (s *Solver) start() error {
+	s.mu.Lock()
+	defer s.mu.Unlock()
 	s.cmd = exec.Command(s.B.Argv[0], s.B.Argv[1:]...)
 	var err error
 	s.in, err = s.cmd.StdinPipe()
@@ -124,11 +128,22 @@ func (s *Solver) send(l string) {
 }
 
 func (s *Solver) Close() {
+	s.mu.Lock()
+	defer s.mu.Unlock()
 	if s.cmd != nil && s.cmd.Process != nil {
 		s.in.Close()
 		s.cmd.Process.Kill()
 		s.cmd.Wait()
 		s.cmd = nil
+	}
+}
+
+// Interrupt kills the solver process from another goroutine; a blocked Check returns Unknown.
+func (s *Solver) Interrupt() {
+	s.mu.Lock()
+	defer s.mu.Unlock()
+	if s.cmd != nil && s.cmd.Process != nil {
+		s.cmd.Process.Kill()
 	}
 }
 
@@ -197,7 +212,7 @@ func (s *Solver) Check(assertions []*Node, modelVars []*Node, timeoutMs int) (Re
 		case l, ok := <-s.lines:
 			if !ok {
 				s.Reset()
-				return Unknown, nil, fmt.Errorf("solver %s died", s.B.Name)
+				return Unknown, nil, nil
 			}
 			l = strings.TrimSpace(l)
 			if l == "" {
